@@ -171,8 +171,17 @@ pub enum Action {
     EarlyPoll(usize),
 }
 
+/// yield points of nun-db at which another thread of the same process (the supervisor, the replication loop) may run
+/// before the task goes on: the task parks like a sleeper of zero length
+fn cluster_yield(site: &'static str) {
+    if site.starts_with("election_win.") {
+        cluster_sleep(0);
+    }
+}
+
 pub fn install_hooks() {
     crate::interpose::virtual_clock(true);
+    nundb::verif::set_yield_handler(Some(cluster_yield));
     crate::interpose::set_sleep_hook(Some(cluster_sleep));
     nundb::verif::set_link_handler(Some(on_offer));
     nundb::verif::set_event_handler(Some(on_event));
@@ -812,6 +821,7 @@ impl Cluster {
             })
             .collect();
         let (results, info) = crate::sched::run(tasks, schedule, sites)?;
+        nundb::verif::set_yield_handler(Some(cluster_yield)); // (the baton scheduler installed its own and removed it)
         self.mark_dirty(i);
         self.absorb_offers();
         self.flush_channels();
